@@ -474,6 +474,23 @@ def chk_c16(rec, be):
                 v = R.run("spike_sync_matrix", lambda: pyspike.spike_sync_matrix([s1, s2], interval=iv, max_tau=mt, MRTS=m))
                 if v is not None and inside and not close(v[0][1], 0.0):
                     R.bad("spike_sync_matrix", "s=%g interval=%s: no two spikes closer than max_tau=%g but entry = %r" % (sg, iv, mt / sg, v[0][1]))
+            # ... and through the list / index-selection forms of every coincidence-based function
+            s3 = s2.copy()
+            forms = [("spike_sync(list)", lambda: pyspike.spike_sync([s1, s2], max_tau=mt, MRTS=m)),
+                     ("spike_sync(list, indices)", lambda: pyspike.spike_sync([s1, s2, s3], indices=[0, 1], max_tau=mt, MRTS=m)),
+                     ("spike_train_order(list)", lambda: pyspike.spike_train_order([s1, s2], normalize=False, max_tau=mt, MRTS=m) if False else pyspike.spike_train_order([s1, s2], max_tau=mt, MRTS=m)),
+                     ("spike_train_order(list, indices)", lambda: pyspike.spike_train_order([s1, s2, s3], indices=[0, 1], max_tau=mt, MRTS=m)),
+                     ("spike_train_order(list, indices=[1,0])", lambda: pyspike.spike_train_order([s1, s2, s3], indices=[1, 0], max_tau=mt, MRTS=m))]
+            for name, f in forms:
+                v = R.run(name, f)
+                if v is not None and not close(v, 0.0):
+                    R.bad(name, "s=%g: no two spikes closer than max_tau=%g but the value is %r" % (sg, mt / sg, v))
+            v = R.run("spike_directionality_matrix", lambda: pyspike.spike_directionality_matrix([s1, s2, s3], indices=[0, 1], normalize=False, max_tau=mt, MRTS=m))
+            if v is not None and not np.allclose(np.asarray(v, float), 0.0):
+                R.bad("spike_directionality_matrix", "s=%g: no two spikes closer than max_tau=%g but the matrix is %s" % (sg, mt / sg, np.asarray(v).tolist()))
+            v = R.run("spike_sync_profile(list, indices)", lambda: pyspike.spike_sync_profile([s1, s2, s3], indices=[1, 0], max_tau=mt, MRTS=m))
+            if v is not None and any(y != 0 and mpv < 2 for y, mpv in list(zip(v.y, v.mp))[1:-1]):
+                R.bad("spike_sync_profile", "s=%g: no two spikes closer than max_tau=%g but the profile marks a coincidence: %s" % (sg, mt / sg, fl(v.y)))
         # enlarging max_tau never removes a coincidence (None = unbounded is the largest)
         bigger = sorted(set(float(fr([q, 4])) * sg for q in rec.get("_tauq", (0, 4)) if float(fr([q, 4])) * sg >= mt or q == 0))
         for mt2 in bigger:
